@@ -88,8 +88,49 @@ impl Scheduler for DeciderScheduler {
     }
 }
 
+// ------------------------------------------------------------------ per-execution state
+
+#[derive(Default)]
+struct SchedState {
+    /// shuttle handle of every logical thread that has talked to the hooks, by logical id
+    threads: Vec<Option<shuttle::thread::Thread>>,
+    now_ns: u64,
+    /// pending timeouts: (deadline, logical thread, sequence for a total order)
+    timers: Vec<(u64, u64, u64)>,
+    timer_seq: u64,
+    clock: Option<shuttle::thread::Thread>,
+    clock_started: bool,
+    clock_join: Option<shuttle::thread::JoinHandle<()>>,
+    shutdown: bool,
+    spawned: Vec<shuttle::thread::JoinHandle<()>>,
+    timeouts_fired: u64,
+}
+
+thread_local! {
+    static STATE: std::cell::RefCell<SchedState> = std::cell::RefCell::new(SchedState::default());
+}
+
+fn register_self(id: u64) {
+    let missing = STATE.with(|s| {
+        let s = s.borrow();
+        s.threads.get(id as usize).map(|t| t.is_none()).unwrap_or(true)
+    });
+    if missing {
+        let me = shuttle::thread::current();
+        STATE.with(|s| {
+            let mut s = s.borrow_mut();
+            if s.threads.len() <= id as usize {
+                s.threads.resize(id as usize + 1, None);
+            }
+            s.threads[id as usize] = Some(me);
+        });
+    }
+}
+
 fn hook_thread_id() -> Option<u64> {
-    current_task().map(|t| t as u64)
+    let id = current_task()? as u64;
+    register_self(id);
+    Some(id)
 }
 
 thread_local! {
@@ -118,10 +159,157 @@ fn hook_yield() {
     }
 }
 
+fn hook_unpark(id: u64) {
+    let t = STATE.with(|s| s.borrow().threads.get(id as usize).cloned().flatten());
+    if let Some(t) = t {
+        t.unpark();
+    }
+}
+
+fn hook_park(timeout: Option<std::time::Duration>) {
+    let Some(me) = hook_thread_id() else { return };
+    match timeout {
+        None => shuttle::thread::park(),
+        Some(d) => {
+            let seq = STATE.with(|s| {
+                let mut s = s.borrow_mut();
+                s.timer_seq += 1;
+                let seq = s.timer_seq;
+                let deadline = s.now_ns.saturating_add(d.as_nanos().min(u64::MAX as u128) as u64);
+                s.timers.push((deadline, me, seq));
+                seq
+            });
+            ensure_clock();
+            simcore::try_with(|dd| dd.log(|| format!("  sched: thread {me} parks with timeout {d:?}")));
+            shuttle::thread::park();
+            simcore::try_with(|dd| dd.log(|| format!("  sched: thread {me} resumes from timed park")));
+            STATE.with(|s| s.borrow_mut().timers.retain(|t| t.2 != seq));
+        }
+    }
+}
+
+/// The clock: a logical thread that, whenever the scheduler lets it run and a timeout is pending,
+/// advances simulated time to the earliest deadline and unparks its owner. It is runnable exactly
+/// while timeouts are pending, so "when does a timeout fire relative to everything else" is a
+/// scheduling decision, and "all threads blocked, no timeout pending" is still a deadlock.
+fn ensure_clock() {
+    // spawning is a scheduling point: reserve the role first so that only one clock is ever started
+    let (spawn_it, clock) = STATE.with(|s| {
+        let mut s = s.borrow_mut();
+        if s.clock_started {
+            (false, s.clock.clone())
+        } else {
+            s.clock_started = true;
+            (true, None)
+        }
+    });
+    if spawn_it {
+        let h = shuttle::thread::spawn(clock_loop);
+        let t = h.thread().clone();
+        STATE.with(|s| {
+            let mut s = s.borrow_mut();
+            s.clock = Some(t);
+            s.clock_join = Some(h);
+        });
+    } else if let Some(c) = clock {
+        // (a clock that is still being started finds our timer when it first runs)
+        c.unpark();
+    }
+}
+
+fn clock_loop() {
+    loop {
+        shuttle::thread::sleep(std::time::Duration::ZERO);
+        let next = STATE.with(|s| {
+            let mut s = s.borrow_mut();
+            if let Some(i) = (0..s.timers.len()).min_by_key(|i| (s.timers[*i].0, s.timers[*i].2)) {
+                let (deadline, tid, _) = s.timers.remove(i);
+                // strictly past the deadline: code that re-reads the clock after a timed wait must see it expired
+                s.now_ns = s.now_ns.max(deadline.saturating_add(1));
+                s.timeouts_fired += 1;
+                Ok(tid)
+            } else {
+                Err(s.shutdown)
+            }
+        });
+        match next {
+            Ok(tid) => {
+                simcore::try_with(|d| d.sim_ns = STATE.with(|s| s.borrow().now_ns));
+                simcore::try_with(|dd| dd.log(|| format!("  clock: timeout of thread {tid} fires at {:?}", hook_now())));
+                hook_unpark(tid);
+            }
+            Err(true) => {
+                simcore::try_with(|dd| dd.log(|| format!("  clock (thread {:?}): exits", current_task())));
+                return;
+            }
+            Err(false) => {
+                simcore::try_with(|dd| dd.log(|| format!("  clock (thread {:?}): idle, parks", current_task())));
+                shuttle::thread::park();
+                simcore::try_with(|dd| dd.log(|| "  clock: unparked".to_string()));
+            }
+        }
+    }
+}
+
+fn hook_spawn(f: Box<dyn FnOnce() + Send + 'static>) {
+    let h = shuttle::thread::spawn(move || {
+        let me = hook_thread_id();
+        simcore::try_with(|dd| dd.log(|| format!("  sched: spawned thread {me:?} starts")));
+        f();
+        simcore::try_with(|dd| dd.log(|| format!("  sched: spawned thread {me:?} exits")));
+    });
+    STATE.with(|s| s.borrow_mut().spawned.push(h));
+}
+
+fn hook_now() -> std::time::Duration {
+    std::time::Duration::from_nanos(STATE.with(|s| s.borrow().now_ns))
+}
+
+/// Simulated time of this execution.
+pub fn now() -> std::time::Duration {
+    hook_now()
+}
+
+pub fn timeouts_fired() -> u64 {
+    STATE.with(|s| s.borrow().timeouts_fired)
+}
+
+/// Wait for the threads started through the spawn hook (pool workers, ...) and stop the clock.
+/// Runs at the end of the main logical thread, inside the execution.
+fn wind_down() {
+    simcore::try_with(|dd| dd.log(|| "  sched: main body done, winding down".to_string()));
+    loop {
+        let h = STATE.with(|s| s.borrow_mut().spawned.pop());
+        match h {
+            Some(h) => {
+                let _ = h.join();
+            }
+            None => break,
+        }
+    }
+    let (clock, join) = STATE.with(|s| {
+        let mut s = s.borrow_mut();
+        s.shutdown = true;
+        (s.clock.take(), s.clock_join.take())
+    });
+    simcore::try_with(|dd| dd.log(|| format!("  sched: stopping the clock (exists: {})", clock.is_some())));
+    if let Some(c) = clock {
+        c.unpark();
+    }
+    if let Some(j) = join {
+        let _ = j.join();
+    }
+    simcore::try_with(|dd| dd.log(|| "  sched: wound down".to_string()));
+}
+
 static HOOKS: simhook::Hooks = simhook::Hooks {
     thread_id: hook_thread_id,
     point: hook_point,
     yield_now: hook_yield,
+    park: hook_park,
+    unpark: hook_unpark,
+    spawn: hook_spawn,
+    now: hook_now,
 };
 
 pub fn install() {
@@ -167,11 +355,24 @@ pub fn run(max_steps: usize, body: impl Fn() + Send + Sync + 'static) -> RunResu
         switch_den: den,
     };
     let runner = shuttle::Runner::new(sched, cfg);
+    STATE.with(|s| *s.borrow_mut() = SchedState::default());
     ACTIVE.with(|a| a.set(true));
     let r = panic::catch_unwind(AssertUnwindSafe(move || {
-        runner.run(body);
+        runner.run(move || {
+            let _ = hook_thread_id();
+            body();
+            wind_down();
+        });
     }));
     ACTIVE.with(|a| a.set(false));
+    // handles of a failed execution must not outlive it
+    STATE.with(|s| {
+        let st = std::mem::take(&mut *s.borrow_mut());
+        std::mem::forget(st.spawned);
+        std::mem::forget(st.clock_join);
+        std::mem::forget(st.threads);
+        std::mem::forget(st.clock);
+    });
     simcore::pending()?;
     match r {
         Ok(()) => Ok(()),
